@@ -18,7 +18,11 @@ def print_rule(E, st, node, args, kws, k):
     if len(args) == 3:
         line = mkhdr(*[to_z3(a, ('int',)) for a in args])
     else:
-        line = args[0].z if args[0].sort == 'WLine' else None
+        a0 = args[0]
+        if getattr(a0, 'sort', None) == 'WLine':
+            line = a0.z
+        else:        # some other text: a line about which nothing is known (in particular not the normalised test name)
+            line = z3.Const(fresh_name('raw_line'), WLine)
     E.list_append(w, VObj('WLine', line), st)
     return k(st, NONE)
 print_rule.__name__ = 'print(..., file=self.original_stderr): appends one line to the wire (ghost G.wire)'
